@@ -64,6 +64,7 @@ def trip(ctx, case):
     dir_a = tempfile.mkdtemp(prefix='vp-c20a-')
     dir_b = tempfile.mkdtemp(prefix='vp-c20b-')
     audit = OpenAudit.get()
+    cwd0 = os.getcwd()
     try:
         with open_box(case['cassette']) as box:
             spy = SpyCassette(box.cassette)
@@ -84,19 +85,43 @@ def trip(ctx, case):
                 state['publish_bodies'] += 1
                 return 'published'
 
+            symlinked = bool(case.get('symlinked_path'))
+            relative = bool(case.get('relative_path'))
+            cap = {} if relative else {'capture_args': []}        # with a relative path the path argument is part of the key (same text in both runs)
+
+            def layout(workdir):
+                """-> (path passed for the input, path passed for the output, where the input physically lives)."""
+                if symlinked:
+                    # <work>/current is a symlink to <work>/releases/v1: 'current/../shared' is <work>/releases/shared for the OS
+                    for sub in ('releases/v1', 'releases/shared'):
+                        if not os.path.isdir(os.path.join(workdir, sub)):
+                            os.makedirs(os.path.join(workdir, sub))
+                    if not os.path.islink(os.path.join(workdir, 'current')):
+                        os.symlink(os.path.join(workdir, 'releases', 'v1'), os.path.join(workdir, 'current'))
+                    return (os.path.join(workdir, 'current', '..', 'shared', 'in.bin'), os.path.join(workdir, 'current', '..', 'shared', 'out.bin'),
+                            os.path.join(workdir, 'releases', 'shared', 'in.bin'))
+                if relative:
+                    return ('in.bin', 'out.bin', os.path.join(workdir, 'in.bin'))
+                return (os.path.join(workdir, 'in.bin'), os.path.join(workdir, 'out.bin'), os.path.join(workdir, 'in.bin'))
+
+            def fetch_deco(alias, fallback=None):
+                fkw = dict(cap, data_handler=in_handler)
+                if fallback is not None:
+                    fkw['fallback_aliases'] = fallback
+                if static_in:
+                    return staticmethod(rec.static_intercept_input(alias, **fkw)(lambda file_path: fetch_body(file_path)))
+                return rec.intercept_input(alias, **fkw)(lambda self, file_path: fetch_body(file_path))
             ns = {}
-            if static_in:
-                ns['fetch'] = staticmethod(rec.static_intercept_input('files.fetch', data_handler=in_handler, capture_args=[])(lambda file_path: fetch_body(file_path)))
-            else:
-                ns['fetch'] = rec.intercept_input('files.fetch', data_handler=in_handler, capture_args=[])(lambda self, file_path: fetch_body(file_path))
+            ns['fetch'] = fetch_deco('files.fetch')
             if static_out:
                 ns['publish'] = staticmethod(rec.static_intercept_output('files.publish', data_handler=out_handler)(lambda file_path: publish_body(file_path)))
             else:
                 ns['publish'] = rec.intercept_output('files.publish', data_handler=out_handler)(lambda self, file_path: publish_body(file_path))
 
             def execute(self, workdir):
-                src = os.path.join(workdir, 'in.bin')
-                dst = os.path.join(workdir, 'out.bin')
+                src, dst, _phys = layout(workdir)
+                if relative:
+                    os.chdir(workdir)
                 got = self.fetch(file_path=src) if kw_in else self.fetch(src)
                 if above:
                     data = content                # the service does not read huge files itself in this scenario
@@ -132,18 +157,32 @@ def trip(ctx, case):
             state['mode'] = 'replay'
             fb, pb_ = state['fetch_bodies'], state['publish_bodies']
 
+            replay_cls = cls
+            if case.get('renamed_input'):
+                # the replayed code version renamed the input and names the old alias as fallback (a list, or a function returning one)
+                old_names = ['files.fetch'] if case['renamed_input'] == 'list' else (lambda *a, **k: ['files.fetch'])
+                ns2 = dict(ns, fetch=fetch_deco('files.download', fallback=old_names))
+                ns2['execute'] = rec.operation()(execute)
+                replay_cls = type('FileOp%d' % (case['seed'] % 100000), (object,), ns2)
+                ctx.count('trips_replayed_through_a_fallback_alias')
+
             def playback_function(recording):
-                return cls().execute(dir_b)
+                return replay_cls().execute(dir_b)
             audit.start()
-            playback = rec.play(saves[0][2], playback_function) if case['same_recorder'] else None
-            if playback is None:
-                # a fresh recorder: the decorators are bound to `rec`, so point it at the reader cassette instead
-                rec.tape_cassette = box.reader()
-                playback = rec.play(saves[0][2], playback_function)
+            try:
+                playback = rec.play(saves[0][2], playback_function) if case['same_recorder'] else None
+                if playback is None:
+                    # a fresh recorder: the decorators are bound to `rec`, so point it at the reader cassette instead
+                    rec.tape_cassette = box.reader()
+                    playback = rec.play(saves[0][2], playback_function)
+            except Exception as ex:
+                audit.stop()
+                ctx.violation('replaying the file trip on unchanged code failed with %s' % type(ex).__name__, dict(w, error=repr(ex)[:200]))
+                return
             opened_b = audit.stop()
             if state['fetch_bodies'] != fb or state['publish_bodies'] != pb_:
                 ctx.violation('intercepted body executed during replay', w)
-            restored_path = os.path.join(dir_b, 'in.bin')
+            restored_path = layout(dir_b)[2]
             expected_in = placeholder if above else content
             try:
                 with open(restored_path, 'rb') as f:
@@ -154,7 +193,7 @@ def trip(ctx, case):
             if restored != expected_in:
                 ctx.violation('file restored at the path named by the replayed call differs from %s' % ('the placeholder' if above else 'the recorded bytes'),
                               dict(w, restored_len=None if restored is None else len(restored), restored_head=repr((restored or b'')[:40])))
-            if os.path.exists(os.path.join(dir_a, 'in.bin')) and open(os.path.join(dir_a, 'in.bin'), 'rb').read() != content:
+            if os.path.exists(layout(dir_a)[2]) and open(layout(dir_a)[2], 'rb').read() != content:
                 ctx.violation('replay modified the originally recorded file', w)
             # outputs: recorded and replayed holder content
             for which, outs, sent in (('recorded_outputs', playback.recorded_outputs, content),
@@ -169,7 +208,7 @@ def trip(ctx, case):
                 if holder.file_content != exp:
                     ctx.violation('holder content of the %s file output differs from %s' % (which, 'the placeholder' if above else 'the bytes sent'),
                                   dict(w, got_len=len(holder.file_content) if holder.file_content is not None else None, head=repr(holder.file_content[:40])))
-                exp_path = os.path.join(dir_a if which == 'recorded_outputs' else dir_b, 'out.bin')
+                exp_path = layout(dir_a if which == 'recorded_outputs' else dir_b)[1]
                 if holder.output_file_path != exp_path:
                     ctx.violation('holder path of the %s file output is not the path the code sent' % which, dict(w, got=holder.output_file_path))
                 tgt = os.path.join(dir_b, 'holder.bin')
@@ -177,7 +216,7 @@ def trip(ctx, case):
                 if open(tgt, 'rb').read() != exp:
                     ctx.violation('holder.to_file wrote other bytes', w)
             if above:
-                reads = [(p, m) for p, m in opened_b if p.startswith(dir_b) and p.endswith('out.bin') and isinstance(m, str) and 'r' in m and 'w' not in m]
+                reads = [(p, m) for p, m in opened_b if (p.startswith(dir_b) or not os.path.isabs(p)) and p.endswith('out.bin') and isinstance(m, str) and 'r' in m and 'w' not in m]
                 if reads:
                     ctx.violation('a file above the size limit was opened for reading while replaying', dict(w, opened=reads[:3]))
             if not above:
@@ -186,6 +225,7 @@ def trip(ctx, case):
                 if rv.get('file_content') == placeholder and content != placeholder:
                     ctx.violation('a file at or below the limit is represented by the placeholder', w)
     finally:
+        os.chdir(cwd0)
         shutil.rmtree(dir_a, ignore_errors=True)
         shutil.rmtree(dir_b, ignore_errors=True)
         if case.get('env_limit') is not None:
@@ -561,6 +601,12 @@ def run(ctx):
         case = dict(shapes(rng), seed=base + 10000 + i)
         if rng.random() < 0.3:
             case['limit_mb'] = rng.choice([0.5, 1, 500, 0.01])
+        if i % 7 == 3:
+            case['symlinked_path'] = True      # '<dir>/current/../shared/in.bin' with 'current' a symlink
+        elif i % 7 == 5:
+            case['relative_path'] = True       # the service runs in its work directory and passes bare file names
+        if i % 5 == 1:
+            case['renamed_input'] = ('list', 'function')[(i // 5) % 2]
         ctx.case(case)
         ctx.count('content_trips')
         trip(ctx, case)
